@@ -1,6 +1,6 @@
 /-
-  Model of what main.go PRINTS (area `cluster`, topic E5): for every non-dump mode of the CLI the bytes written to
-  stdout, the exit code, and what goes to stderr.  `Model/Cli.lean` decides WHICH library call a flag combination
+  Model of what main.go PRINTS (area `cluster`, topic E5): for every mode of the CLI — the dump modes (JSON / `-sql` /
+  `-csv`) included — the bytes written to stdout, the exit code, and what goes to stderr.  `Model/Cli.lean` decides WHICH library call a flag combination
   reaches (`cliAction`); this file renders the library's result the way main.go does.
 
   Library calls are parameters (`Lib`): each field is one exported pgdump function as main.go calls it, returning the
@@ -17,11 +17,13 @@
       outside 0..9999) writes NOTHING to stdout (the encoder buffers); main.go (fix cluster/07) reports it, exit 1.
     * `time.Time.MarshalJSON` for a whole number of seconds in UTC (RFC 3339)
     * `encoding/hex.Dump`
+    * `DumpResult.ToSQL` / `ToCSV`: area export's models (Model/ExportSql.lean, Model/ExportCsv.lean)
   Floats are never rendered here: the modes whose structs carry floats (-index, -toast-verbose, block statistics)
-  are compared against the library's own JSON by the Go handler.
+  are compared against the library's own JSON by the Go handler; a JSON dump with a float cell is left unrendered.
 -/
 import PgVerif.Types.Text
 import PgVerif.Types.ExportDump
+import PgVerif.Model.ExportCsv
 import PgVerif.Model.Cli
 import PgVerif.Model.Catalog
 import PgVerif.Model.Cluster
@@ -381,9 +383,10 @@ def checksumResultJV (r : ChecksumResult) : JV := .obj (
   (if r.lsn ≠ 0 then [(key "lsn", jnat r.lsn)] else []) ++
   (if r.lsnStr ≠ "" then [(key "lsn_str", jstr r.lsnStr)] else []))
 
-/-- FileChecksumResult with its path (`<dataDir>/base/<db>/<name>`) -/
+/-- FileChecksumResult with its path (`<dataDir>/<directory relative to the data directory>/<name>`: `global/<name>`,
+`base/<db>/<name>`, `pg_tblspc/<spc>/PG_…/<db>/<name>`) -/
 def fileChecksumJV (dataDir : Bytes) (f : ScannedFile) : JV := .obj (
-  [(key "path", .str (dataDir ++ asc "/base/" ++ f.db ++ [47] ++ f.name)), (key "total_blocks", jnat f.result.totalBlocks),
+  [(key "path", .str (dataDir ++ [47] ++ f.db ++ [47] ++ f.name)), (key "total_blocks", jnat f.result.totalBlocks),
    (key "valid_blocks", jnat f.result.validBlocks), (key "invalid_blocks", jnat f.result.invalidBlocks),
    (key "zero_blocks", jnat f.result.zeroBlocks)] ++
   (if f.result.errors.isEmpty then [] else [(key "errors", .arr (f.result.errors.map checksumResultJV))]))
@@ -415,6 +418,125 @@ def blockInfoJV (b : BlockInfo) : JV := .obj (
 
 /-- `[]BlockInfo` of DumpBlockRange (`var blocks []BlockInfo`: nil when empty) -/
 def blockListJV (l : List BlockInfo) : JV := if l.isEmpty then .null else .arr (l.map blockInfoJV)
+
+/-! ### the dump modes (`pgread [-d DIR] [-db NAME] [-t SUBSTR] [-list] [-sql] [-csv]`): DumpResult → JSON / SQL / CSV
+
+  `DumpResult{Databases []DatabaseDump "databases"}`, `DatabaseDump{oid, name, tables}`,
+  `TableDump{oid, name, filenode, kind, columns (omitempty), rows (omitempty), row_count}`, `ColumnInfo{name, type, typid}`
+  (pgdump/pgdump.go).  `result.Databases` and `dump.Tables` grow by `append` from nil: `null` when nothing was appended.
+  A row is a `map[string]interface{}`: the encoder writes its keys in byte-wise sorted order; the association list of
+  the model (`Spec.DRow`, distinct keys, in column order) is sorted here.  Cell values: nil → `null`, bool, every
+  integer kind in decimal, strings with Go's escaping, `[]interface{}` as an array (DecodeType never returns a nil
+  slice), nested maps with sorted keys.  A float32 / float64 has no rendering in Lean (`strconv`'s shortest
+  decimal; NaN / Inf make the encoder fail): `goValJV` is partial, `none` = a float occurs somewhere. -/
+
+def keyLe (a b : Bytes × JV) : Bool := bytesLeB a.1 b.1
+
+mutual
+/-- a decoded cell as `encoding/json` sees it; `none` when a float occurs in it -/
+def goValJV : GoVal → Option JV
+  | .nil => some .null
+  | .bool b => some (.bool b)
+  | .int i => some (.int i)
+  | .f64 _ => none
+  | .f32 _ => none
+  | .str s => some (.str s)
+  | .arr xs => match goValsJV xs with
+    | some l => some (.arr l)
+    | none => none
+  | .obj kvs => match goKvsJV kvs with
+    | some l => some (.obj (sortBy keyLe l))
+    | none => none
+def goValsJV : List GoVal → Option (List JV)
+  | [] => some []
+  | x :: xs => match goValJV x, goValsJV xs with
+    | some a, some b => some (a :: b)
+    | _, _ => none
+def goKvsJV : List (Bytes × GoVal) → Option (List (Bytes × JV))
+  | [] => some []
+  | (k, v) :: rest => match goValJV v, goKvsJV rest with
+    | some a, some b => some ((k, a) :: b)
+    | _, _ => none
+end
+
+/-- one row (a Go map): an object with sorted keys -/
+def rowJV (r : Spec.DRow) : Option JV := goValJV (.obj r)
+
+def rowsJV : List Spec.DRow → Option (List JV)
+  | [] => some []
+  | r :: rs => match rowJV r, rowsJV rs with
+    | some a, some b => some (a :: b)
+    | _, _ => none
+
+def columnJV (c : Spec.ColumnInfo) : JV := .obj [(key "name", .str c.name), (key "type", .str c.typ), (key "typid", .int c.typid)]
+
+/-- TableDump: `columns` and `rows` are `omitempty` (dropped when the slice is nil or empty) -/
+def tableJV (t : Spec.TableDump) : Option JV :=
+  match rowsJV t.rows with
+  | none => none
+  | some rows => some (.obj (
+      [(key "oid", jnat t.oid), (key "name", .str t.name), (key "filenode", jnat t.filenode), (key "kind", .str t.kind)] ++
+      (if t.columns.isEmpty then [] else [(key "columns", .arr (t.columns.map columnJV))]) ++
+      (if rows.isEmpty then [] else [(key "rows", .arr rows)]) ++
+      [(key "row_count", jnat t.rowCount)]))
+
+def tablesJV : List Spec.TableDump → Option (List JV)
+  | [] => some []
+  | t :: ts => match tableJV t, tablesJV ts with
+    | some a, some b => some (a :: b)
+    | _, _ => none
+
+/-- DatabaseDump: `Tables` is nil (`null`) when no table was appended -/
+def dbJV (d : Spec.DatabaseDump) : Option JV :=
+  match tablesJV d.tables with
+  | none => none
+  | some ts => some (.obj [(key "oid", jnat d.oid), (key "name", .str d.name),
+      (key "tables", if ts.isEmpty then .null else .arr ts)])
+
+def dbsJV : List Spec.DatabaseDump → Option (List JV)
+  | [] => some []
+  | d :: ds => match dbJV d, dbsJV ds with
+    | some a, some b => some (a :: b)
+    | _, _ => none
+
+/-- DumpResult: `Databases` is nil (`null`) when no database was dumped.  `none` = a float occurs in some cell -/
+def dumpJV (r : Spec.DumpResult) : Option JV :=
+  match dbsJV r with
+  | none => none
+  | some ds => some (.obj [(key "databases", if ds.isEmpty then .null else .arr ds)])
+
+/-! the input of area export's `toSQL` / `toCSV` (Types/ExportDump.lean: a Go map is an association list in
+`sort.Strings` order): the same dump with every map's keys sorted -/
+
+def goKeyLe (a b : Bytes × GoVal) : Bool := bytesLeB a.1 b.1
+
+mutual
+def normVal : GoVal → GoVal
+  | .arr xs => .arr (normVals xs)
+  | .obj kvs => .obj (sortBy goKeyLe (normKvs kvs))
+  | v => v
+def normVals : List GoVal → List GoVal
+  | [] => []
+  | x :: xs => normVal x :: normVals xs
+def normKvs : List (Bytes × GoVal) → List (Bytes × GoVal)
+  | [] => []
+  | (k, v) :: rest => (k, normVal v) :: normKvs rest
+end
+
+def normRow (r : Spec.DRow) : Export.Row := sortBy goKeyLe (normKvs r)
+
+def exportTable (t : Spec.TableDump) : Export.TableDump :=
+  { name := t.name, columns := t.columns.map fun c => ⟨c.name, c.typ, c.typid⟩, rows := t.rows.map normRow, rowCount := t.rowCount }
+
+def exportDump (r : Spec.DumpResult) : Export.DumpResult :=
+  r.map fun d => { oid := d.oid, name := d.name, tables := d.tables.map exportTable }
+
+/-- `-v` in the dump mode: after DumpDataDir succeeded and before anything reaches stdout,
+`fmt.Fprintf(os.Stderr, "[*] %s (OID %d): %d tables\n", db.Name, db.OID, len(db.Tables))` per dumped database.
+`Action.dump` does not carry the flag: `cliRun` is the run WITHOUT `-v`; the family `clirender` adds these lines (and
+the "[*] Auto-detected: …" line) to the expected stderr when `-v` is given. -/
+def dumpVerbose (r : Spec.DumpResult) : Bytes :=
+  r.flatMap fun db => asc "[*] " ++ db.name ++ asc " (OID " ++ Export.dec db.oid ++ asc "): " ++ Export.dec db.tables.length ++ asc " tables\n"
 
 /-! ### the library as main.go sees it -/
 
@@ -449,9 +571,19 @@ structure Lib where
   segmentInfo : Bytes → Int × Int → Option SegmentInfo
   /-- DumpBlockRange(path, br) -/
   dumpBlockRange : Bytes → Option BlockRange → M (Option (List BlockInfo))
+  /-- DumpDataDir(dir, &Options{DatabaseFilter, TableFilter, ListOnly, SkipSystemTables: true}) — the call of the dump
+  modes; `none` = it returned an error (global/1262 cannot be read) -/
+  dumpDataDir : Bytes → Spec.Options → M (Option Spec.DumpResult)
+  /-- `time.Now().Format(time.RFC3339)` at the moment `ToSQL` writes its header (the only place a clock is read) -/
+  now : Bytes
+  /-- `fmt`'s `%v` / `encoding/json`'s text of float32 / float64 cells as `ToSQL` / `ToCSV` use them (area export's
+  parameter, Types/ExportDump.lean; never computed in Lean) -/
+  floatFmt : Export.FloatFmt
 
 /-- the modes whose stdout is `enc.Encode(<library struct>)` of a struct this file does not render (floats, search
-values, trufflehog findings): the handler compares stdout with the library's own JSON -/
+values, trufflehog findings): the handler compares stdout with the library's own JSON.  `dump` = the JSON dump mode
+(no `-sql`, no `-csv`) of a dump in which some cell holds a float32 / float64 — and only that: every other dump is
+rendered (`renderDump`). -/
 inductive Unrendered where
   | index | toastVerbose | dropped | secrets | search | dump
 deriving Repr, DecidableEq, Inhabited
@@ -516,7 +648,30 @@ def runRange (L : Lib) (path range : Bytes) (seg : Option (Int × Int)) : M Run 
       | none => return .out (errOut "Error: ")
       | some bs => return .out (okOut (encodeJSON (blockListJV bs)))
 
-/-- main(): what the action chosen by `cliAction` prints -/
+/-- the output switch at the end of main() on a successful DumpDataDir: `-sql` → `result.ToSQL(os.Stdout)`, else `-csv` →
+`result.ToCSV(os.Stdout)`, else `enc.Encode(result)` with two-space indentation (the precedence is `outFormat` of
+Model/Cli.lean).  Exit code 0, nothing on stderr.
+Assumption: writing to stdout does not fail (`ToSQL` / `ToCSV` return the writer's error, which cannot happen on a
+pipe or a regular file with space left; main.go would print "Error generating SQL/CSV: …" and exit 1).
+SQL: area export's model `toSQL` (its `-- Generated at: <now>` header line holds `L.now`); CSV: `toCSV`; both take
+float texts from `L.floatFmt`.  JSON: `dumpJV`; a dump holding a float somewhere is NOT rendered (`.unrendered .dump`:
+nothing is claimed about that run; with a NaN / Inf the real encoder fails and `mustEncode` exits 1). -/
+def renderDump (L : Lib) (fmt : Format) (r : Spec.DumpResult) : Run :=
+  match fmt with
+  | .sql => .out (okOut (Model.Export.toSQL L.floatFmt L.now (exportDump r)))
+  | .csv => .out (okOut (Model.Export.toCSV L.floatFmt (exportDump r)))
+  | .json =>
+    match dumpJV r with
+    | some v => .out (okOut (encodeJSON v))
+    | none => .unrendered .dump
+
+/-- main(): what the action chosen by `cliAction` prints.
+
+Not modelled (in every mode): `-debug` sets `pgdump.Debug`, which makes the decoder print trace lines to stdout while
+DumpDataDir runs — outside the model, `cliRun` is the run without `-debug`; `-v` adds "[*] …" lines on stderr
+(`dumpVerbose` and the driver's `verboseLine`) — `cliRun` is the run without `-v`.
+`.unrendered` is returned for `-f … -index`, `-f … -toast-verbose`, `-dropped`, `-secrets`, `-search`, and for the JSON
+dump of a result holding a float (see `renderDump`); for every other action the result is `.out`. -/
 def cliRun (L : Lib) : Action → M Run
   | .version => pure (.out (okOut (renderVersion L.version)))
   | .detect =>
@@ -552,6 +707,9 @@ def cliRun (L : Lib) : Action → M Run
   | .secrets _ _ => pure (.unrendered .secrets)
   | .search _ _ => pure (.unrendered .search)
   | .wal dir => do return jsonOr "Error reading WAL: " (← L.scanWAL dir) fun s => encodeJSON (walSummaryJV s)
-  | .dump _ _ _ => pure (.unrendered .dump)      -- the dump itself is area export's / family `cli`'s business
+  | .dump dir opts fmt => do
+    match ← L.dumpDataDir dir opts with
+    | none => return .out (errOut "Error: ")
+    | some r => return renderDump L fmt r
 
 end PgVerif.Model.CliRender
